@@ -678,6 +678,8 @@ def mkOps (h : Heap G) (ext : List Nat) (c : CallJ) : R (List (Op G)) := do
     let cu ← cur
     -- `iter(axis)` walks the receiver with `_get_col` / `_get_row` (when there is anything to walk)
     let pre := if (cu.ids ax).isEmpty then [] else [(c.recv, ax)]
+    -- nothing is yielded when every ID is ignored (`ignore_none`); the receiver has been walked all the same
+    if c.resultContents.isEmpty then return [.read pre]
     pure (c.resultContents.map (fun r =>
       Op.partition c.recv ax pre (fun _ => r)
         (if re then [filterBody r .samp r.samp none, filterBody r .obs r.obs none] else [])))
